@@ -228,10 +228,17 @@ class World(EventDispatcher):
         (TODO) returns cached results from this method.
         """
         fringe = [component_type]
+        visited = set()
 
         while fringe:
             subtype = fringe.pop()
             fringe += subtype.__subclasses__()
+
+            # With multiple inheritance, a subtype can be reached through
+            # more than one base. Its components shall be reported once
+            if subtype in visited:
+                continue
+            visited.add(subtype)
 
             for entity in self._components.get(subtype, []):
                 yield entity, self._entities[entity][subtype]
